@@ -29,6 +29,7 @@ import os
 import re as pyre
 
 from vlib import coq_bytes
+from textlib import PACK_PRELUDE, coq_pk
 
 FINDING = "C12-crlf-comment"
 
@@ -38,7 +39,7 @@ def b64(x):
 
 
 def run(c):
-    c.go2coq_sources = ["c03.go", "textmatch.go", "c12.go", "c03loop.go", "c12loop.go", "c12load.go", "c12handler.go"]   # private translator build: another family's generator cannot break this check
+    c.go2coq_sources = ["c03.go", "textmatch.go", "c12.go", "c03loop.go", "c12loop.go", "c12load.go", "c12handler.go", "c03src.go"]   # private translator build: another family's generator cannot break this check
     thorough = c.tier == "thorough"
     c.rule = ("fixed MatchComment rules (named groups in both spellings, unnamed-in-front, optional, nested, alternative (non-participating) "
               "groups, no groups = fast path, multi-byte, (?s) multi-line, Where filters on Text / Line / Node, At(), Suggest), rule families "
@@ -60,6 +61,8 @@ def run(c):
         "as option E * state, the rule slice as the only state, regexp.Compile / checkBoundVars / errorf / the goCommentRule literal as abstract "
         "operations); the part of loadRule in front of that tail (the goRule prototype, the filter) and LoadFile's walk over groups are modelled "
         "by hand (CommentLoad.load_rules / load_files) and tied by the comparison with the engine's rule list on every run",
+        "go2coq c03src: the statement-level translator of rulesRunner.fileBytes (the world is the cell rr.src, os.ReadFile a parameter) and its syntactic "
+        "facts about newRulesRunner / run / the package's mentions of rr.src; os.ReadFile returns the bytes the file has at the time of the call",
         "go2coq c03extras (nodeText in-range test), c12facts; harness/cmd/c12 and hooks VerifRegexpHasCaptureGroups, VerifCommentRules (build tag verif)",
     ]
     c.notes += ["filters in the correspondence: Text ==/!= literal or another variable's Text, Text.Matches, Line against a variable's Line or a constant, Node.Is, !, &&, ||",
@@ -67,7 +70,7 @@ def run(c):
 
     c.sh([os.path.join(c.verif, "coq", "build.sh")], timeout=3400)
     c.require_theories("Base/*.v", "Regex/Utf8.v", "Regex/Regex.v", "Regex/Capture.v", "Engine/TruncateSpec.v", "Engine/RenderSpec.v",
-                       "Engine/CommentSpec.v", "Engine/CommentLoop.v", "Engine/CommentLoad.v", "Engine/CommentHandler.v")
+                       "Engine/CommentSpec.v", "Engine/CommentLoop.v", "Engine/CommentLoad.v", "Engine/CommentHandler.v", "Engine/FileBytes.v")
 
     gen_ok = False
     gen12_ok = False
@@ -96,9 +99,19 @@ def run(c):
         if c.coq_compile(["Gen_C12Load.v"]):
             c.install_tmpl("C12/Def_CommentLoad.v")
             load_ok = c.coq_compile(["Def_CommentLoad.v"])    # definitions only: the executed loader
+    # rulesRunner.fileBytes (the bytes `$$` / `$name` / Where() texts are sliced from), translated; the life of rr.src across the
+    # runs of one reused RunnerState (shared with C03)
+    src_ok = False
+    if c.go2coq("c03src", "Gen_C03Src.v"):
+        if c.coq_compile(["Gen_C03Src.v"]):
+            src_ok = True
     if gen_ok and gen12_ok:
-        c.install_tmpl("C03/Inst_Render.v", "C12/Inst_Comment.v", "C12/Inst_CommentHandler.v", "C12/Inst_CommentLoop.v", "C12/Inst_CommentLoad.v", "C12/C12.v")
+        c.install_tmpl("C03/Inst_Render.v", "C03/Inst_FileBytes.v", "C12/Inst_Comment.v", "C12/Inst_CommentHandler.v", "C12/Inst_CommentLoop.v", "C12/Inst_CommentLoad.v", "C12/C12.v")
         c.coq_compile(["Inst_Render.v", "Inst_Comment.v"])
+        if src_ok:
+            src_ok = c.coq_compile(["Inst_FileBytes.v"])
+        else:
+            c.obligation("coq:Inst_FileBytes.v", False, "not compiled: fileBytes did not translate")
         if handler_ok:
             handler_proved = c.coq_compile(["Inst_CommentHandler.v"])
         else:
@@ -112,7 +125,7 @@ def run(c):
             c.coq_compile(["Inst_CommentLoad.v"])
         else:
             c.obligation("coq:Inst_CommentLoad.v", False, "not compiled: the loader of comment rules did not translate")
-        if loop_ok and load_ok:
+        if loop_ok and load_ok and src_ok:
             c.coq_compile(["C12.v"])
         else:
             c.obligation("coq:C12.v", False, "not compiled: a file it depends on failed")
@@ -398,19 +411,19 @@ def run(c):
             pat_names[r["pat"]] = r["names"]
             pat_groups[r["pat"]] = r["groups"]
 
-        def coq_idx(ix):
-            if ix is None:
-                return "None"
-            return "(Some [%s])" % ";".join("%d" % x for x in ix)
+        def coq_idxs(idxs):
+            # one entry per rule, mostly "no match": written sparsely (rule index, index vector) and expanded inside the evaluation
+            return "(tl_expand %d%%nat 0 [%s])" % (len(idxs), ";".join("(%d, [%s])" % (k, ";".join("%d" % x for x in ix))
+                                                                      for k, ix in enumerate(idxs) if ix is not None))
 
         def coq_mt(mt):
-            return "[%s]" % ";".join("(%s, %s, %s)" % (coq_bytes(b64(x["pat"])), coq_bytes(b64(x["text"])), "true" if x["ok"] else "false") for x in (mt or []))
+            return "[%s]" % ";".join("(%s, %s, %s)" % (coq_pk(b64(x["pat"])), coq_pk(b64(x["text"])), "true" if x["ok"] else "false") for x in (mt or []))
 
         def coq_obs(ob):
             if not ob:
                 return "None"
             t = rep_tuple(ob[0])
-            return "(Some (%d, %d, %s, %s, %d, %d, %s, %d))" % (t[0], t[1], coq_bytes(t[2]), "true" if t[3] else "false", t[4], t[5], coq_bytes(t[6]), t[7])
+            return "(Some (%d, %d, %s, %s, %d, %d, %s, %d))" % (t[0], t[1], coq_pk(t[2]), "true" if t[3] else "false", t[4], t[5], coq_pk(t[6]), t[7])
         pre = "\n".join([
             "From Coq Require Import List ZArith Bool Arith.",
             "From RG.Base Require Import Outcome GoInt GoSlice.",
@@ -420,8 +433,9 @@ def run(c):
             "From RGW Require Import Gen_C03." if gen_ok else
             "Definition nodeTextInRange (from to : Z) (src : bytes) : outcome bool := Ok ((0 <=? from)%Z && (from <? len src)%Z && ((from <=? to)%Z && (to <=? len src)%Z)).",
             "Import ListNotations. Local Open Scope Z_scope.",
+            PACK_PRELUDE,
             # big list literals overflow coqc's parser stack: the files are given in chunks
-            "\n".join("Definition src_%d_%d : bytes := %s." % (fi, k // 4000, coq_bytes(x[k:k + 4000])) for fi, x in enumerate(srcs)
+            "\n".join("Definition src_%d_%d : bytes := %s." % (fi, k // 4000, coq_pk(x[k:k + 4000])) for fi, x in enumerate(srcs)
                       for k in range(0, max(len(x), 1), 4000)),
             "Definition srcs : list bytes := [%s]." % ";\n".join(
                 "(" + " ++ ".join("src_%d_%d" % (fi, k // 4000) for k in range(0, max(len(x), 1), 4000)) + ")" for fi, x in enumerate(srcs)),
@@ -457,12 +471,29 @@ def run(c):
         ])
         good = [(i, o) for i, o in enumerate(comments) if not o.get("panic") and len(o.get("obs") or []) <= 1]
 
+        # the preamble (file contents, the rules loaded inside Coq, the engine's dump) is compiled ONCE per run; the shards import it
+        pre_mod = "Pre_%s" % tag
+        okp, outp = c.coq_eval(pre_mod + ".v", pre, timeout=900)
+        if not okp:
+            c.obligation("coq-eval:" + pre_mod + ".v", False, outp[-2000:])
+            return
+        pre_imports = "\n".join([
+            "From Coq Require Import List ZArith Bool Arith Uint63.",
+            "From RG.Base Require Import Outcome GoInt GoSlice.",
+            "From RG.Engine Require Import TruncateSpec RenderSpec CommentSpec CommentLoad.",
+            ("From RG.Engine Require Import RenderLoop CommentLoop CommentHandler.\nFrom RGW Require Import Gen_C12Loop Gen_C12Handler Def_CommentHandler Def_CommentLoop." if loop_ok else ""),
+            ("From RGW Require Import Gen_C12." if gen12_ok else ""),
+            ("From RGW Require Import Gen_C03." if gen_ok else ""),
+            "From RGW Require Import %s." % pre_mod,
+            "Import ListNotations. Local Open Scope Z_scope.",
+        ])
+
         def shard(items):
-            s = [pre, "Definition cases : list (Z * Z * nat * Z * bytes * list (option (list Z)) * list (bytes * bytes * bool) * "
+            s = [pre_imports, "Definition cases : list (Z * Z * nat * Z * bytes * list (option (list Z)) * list (bytes * bytes * bool) * "
                  "option (Z * Z * bytes * bool * Z * Z * bytes * Z)) := ["]
-            s.append(";\n".join("(%d, %d, %d%%nat, %d, %s, [%s], %s, %s)" % (i, o["L"], o["file"], o["off"], coq_bytes(b64(o["text"])),
-                                                                          ";".join(coq_idx(ix) for ix in o["idx"]), coq_mt(o.get("mt")),
-                                                                          coq_obs(o.get("obs"))) for i, o in items))
+            s.append(";\n".join("(%d, %d, %d%%nat, %d, %s, %s, %s, %s)" % (i, o["L"], o["file"], o["off"], coq_pk(b64(o["text"])),
+                                                                        coq_idxs(o["idx"]), coq_mt(o.get("mt")),
+                                                                        coq_obs(o.get("obs"))) for i, o in items))
             s.append("].")
             # the executed model: runCommentRules as translated from the source (file base from the FileSet), else the hand model
             # with the declaration site of the match data read off the source
